@@ -55,6 +55,18 @@ PROPS = {
         "assumptions": STD_ASSUME_PURE + ["broadcast channel never overflows (each connection task sees every SendOwnState), see DESIGN.md C11/C14",
                                            "new_optimistic_peers returns at most MAX_OPTIMISTIC peers, each currently choked and interested (read off the code: choose() of that filtered list)"],
     },
+    "C20": {
+        "lean_modules": ["RdestModel.Props.C20"],
+        "cases": {"quick": 400, "thorough": 12000},
+        "rule": "scripts for the REAL connection task (PeerHandler over an in-memory stream, scripted manager, tokio paused clock, current-thread "
+                "runtime): handshake, then 3..28 events drawn from timer advances {1,30,59,60,61,119,120,121,239,240,360 s} and frames of all "
+                "kinds (keep-alive, interested, not-interested, choke, have, cancel, unchoke) so that silence falls at the start, in the middle and "
+                "at the end; incoming and outgoing connections; per event the frames written, commands sent and the termination are compared "
+                "with the model, and the keep-alive predicate P20 (the one the theorem is about) is evaluated on the implementation's own trace; "
+                "distinct = distinct scripts",
+        "assumptions": STD_ASSUME_PURE + ["tokio timers fire in order under the paused clock; a task blocked in a socket write does not poll its timer (outside the model)",
+                                           "messages with unknown ids are dropped below the task and do not count as activity"],
+    },
     "C07": {
         "lean_modules": ["RdestModel.Props.C07"],
         "cases": {"quick": 6000, "thorough": 200000},
